@@ -19,7 +19,9 @@
   before any lock is taken), `none`, one manager lock per unit id, a send-only lock, and `leakOnFail` (the client lock
   is not given back when the connect fails: `lock_leak_counterexample`, a deadlock), `lockOnlyWhenCold` (the client lock
   is taken only by a caller that sees no socket: `lockOnlyWhenCold_counterexample`, after a lost reply the reconnect
-  inside `_transact` races with the locked connect of the next caller).
+  inside `_transact` races with the locked connect of the next caller), `broadcastOutside` (a broadcast is written after
+  the client lock has been given back: `broadcastOutside_counterexample`).  Requests may be BROADCASTS (`Req.bcast`:
+  written under both locks, nothing is read, no unit answers, the result is the marker).
 -/
 import Pymodbus.Lemmas.SchedConn
 import Pymodbus.Generated.Tables
@@ -91,9 +93,10 @@ theorem istage_wire {sh : Shared} {c t : Nat} {th : Thread} (h : IStage sh c t t
   | connect k h q => exact pairs_contiguous _ q.2.2.2
   | flush k h q => exact pairs_contiguous _ q.2.2.2
   | send1 k h q => exact pairs_contiguous _ q.2.2.2
-  | waiting k h hp hs hb hw => exact pairs_contiguous _ hw
-  | recv2 h hl hh hp hs hb hw => exact pairs_contiguous _ hw
-  | process h hr q => exact pairs_contiguous _ q.2.2.2
+  | bsent h hbc q => exact pairs_contiguous _ q.2.2.2
+  | waiting k h hbc hp hs hb hw => exact pairs_contiguous _ hw
+  | recv2 h hbc hl hh hp hs hb hw => exact pairs_contiguous _ hw
+  | process h hbc hr q => exact pairs_contiguous _ q.2.2.2
   | release h q => exact pairs_contiguous _ q.2.2.2
 
 theorem stage_wire {v : View} {t : Nat} {th : Thread} (h : Stage v t th) : Spec.contiguous v.wire = true := by
@@ -102,7 +105,7 @@ theorem stage_wire {v : View} {t : Nat} {th : Thread} (h : Stage v t th) : Spec.
   | opening k h q => exact pairs_contiguous _ q.2.1
   | acq k h q => exact pairs_contiguous _ q.2.1
   | inner c hs hc1 hfr hm st => exact istage_wire st
-  | closedProc h hr hl hs hb hw => exact pairs_contiguous _ hw
+  | closedProc h hr hbc hl hs hb hw => exact pairs_contiguous _ hw
   | closedRel h hs hb hw => exact pairs_contiguous _ hw
   | crel h q => exact pairs_contiguous _ q.2.1
 
@@ -129,19 +132,30 @@ theorem caller_gets_its_due (scope : LockScope) (hs : scope = .whole) (reqs : Na
   rw [run_connOk] at h
   exact h
 
-/-- `own_reply`: when every connection attempt succeeds, every completed call whose reply was not lost returned the
-    reply to its own request; cold client included, whatever happened to the other callers' replies -/
+/-- `own_reply`: when every connection attempt succeeds, every completed ordinary call whose reply was not lost
+    returned the reply to its own request; cold client included, whatever happened to the other callers -/
 theorem own_reply (scope : LockScope) (hs : scope = .whole) (reqs : Nat → List Req) (connected : Bool)
     (cok : Nat → Bool) (hall : ∀ k, cok k = true) (sched : List Nat) (t : Nat) :
     ∀ x ∈ ((runSched scope (init reqs connected cok) sched).threads t).results,
-      x.1.lost = false → Spec.OwnReply x := by
-  intro x hx hl
-  cases caller_gets_its_due scope hs reqs connected cok sched t x hx with
-  | inl h => obtain ⟨_, k, hk⟩ := h; rw [hall k] at hk; cases hk
-  | inr h =>
-    cases h with
-    | inl h => rw [hl] at h; cases h.1
-    | inr h => exact h.2
+      x.1.bcast = false → x.1.lost = false → Spec.OwnReply x := by
+  intro x hx hb hl
+  rcases caller_gets_its_due scope hs reqs connected cok sched t x hx with h | h | h | h
+  · obtain ⟨_, k, hk⟩ := h; rw [hall k] at hk; cases hk
+  · rw [hb] at h; cases h.1
+  · rw [hl] at h; cases h.2.1
+  · exact h.2.2
+
+/-- a broadcaster is handed the broadcast marker (unless its connection attempt was refused) -/
+theorem broadcaster_gets_marker (scope : LockScope) (hs : scope = .whole) (reqs : Nat → List Req)
+    (connected : Bool) (cok : Nat → Bool) (hall : ∀ k, cok k = true) (sched : List Nat) (t : Nat) :
+    ∀ x ∈ ((runSched scope (init reqs connected cok) sched).threads t).results,
+      x.1.bcast = true → x.2.2 = .bcastSent := by
+  intro x hx hb
+  rcases caller_gets_its_due scope hs reqs connected cok sched t x hx with h | h | h | h
+  · obtain ⟨_, k, hk⟩ := h; rw [hall k] at hk; cases hk
+  · exact h.2
+  · rw [hb] at h; cases h.1
+  · rw [hb] at h; cases h.1
 
 /-- an error object is handed out only to the caller whose own reply was lost -/
 theorem error_only_if_own_reply_lost (scope : LockScope) (hs : scope = .whole) (reqs : Nat → List Req)
@@ -149,12 +163,11 @@ theorem error_only_if_own_reply_lost (scope : LockScope) (hs : scope = .whole) (
     ∀ x ∈ ((runSched scope (init reqs connected cok) sched).threads t).results,
       x.2.2 = .err .modbusIO → x.1.lost = true := by
   intro x hx he
-  cases caller_gets_its_due scope hs reqs connected cok sched t x hx with
-  | inl h => rw [he] at h; cases h.1
-  | inr h =>
-    cases h with
-    | inl h => exact h.1
-    | inr h => have := h.2; unfold Spec.OwnReply at this; rw [he] at this; cases this
+  rcases caller_gets_its_due scope hs reqs connected cok sched t x hx with h | h | h | h
+  · rw [he] at h; cases h.1
+  · rw [he] at h; cases h.2
+  · exact h.2.1
+  · have := h.2.2; unfold Spec.OwnReply at this; rw [he] at this; cases this
 
 /-- no result lost or duplicated: the completed transactions of a thread are, in order, an initial part of the
     requests it was given (one result each) -/
@@ -180,18 +193,18 @@ theorem finished_all_answered (scope : LockScope) (hs : scope = .whole) (reqs : 
   simp only [Thread.done, Bool.and_eq_true, List.isEmpty_iff] at hd
   simpa [curPending, hd.1, hd.2] using h
 
-/-- … and when every connection attempt succeeds and no reply of this thread is lost: one own reply per request, in
+/-- … and when every connection attempt succeeds and no reply of this thread is lost (and it sends no broadcast): one own reply per request, in
     order — nothing lost, duplicated or swapped -/
 theorem finished_all_served (scope : LockScope) (hs : scope = .whole) (reqs : Nat → List Req)
     (connected : Bool) (cok : Nat → Bool) (hall : ∀ k, cok k = true) (sched : List Nat) (t : Nat)
-    (hnl : ∀ r ∈ reqs t, r.lost = false)
+    (hnl : ∀ r ∈ reqs t, r.lost = false ∧ r.bcast = false)
     (hd : ((runSched scope (init reqs connected cok) sched).threads t).done = true) :
     Spec.AllServed reqs (runSched scope (init reqs connected cok) sched) t := by
   have hmap := (finished_all_answered scope hs reqs connected cok sched t hd).1
-  refine ⟨hmap, fun x hx => own_reply scope hs reqs connected cok hall sched t x hx ?_⟩
-  apply hnl
-  rw [← hmap]
-  exact List.mem_map_of_mem hx
+  have hmem : ∀ x ∈ ((runSched scope (init reqs connected cok) sched).threads t).results, x.1 ∈ reqs t := by
+    intro x hx; rw [← hmap]; exact List.mem_map_of_mem hx
+  exact ⟨hmap, fun x hx => own_reply scope hs reqs connected cok hall sched t x hx
+    (hnl _ (hmem x hx)).2 (hnl _ (hmem x hx)).1⟩
 
 /-- the socket is only replaced while no transaction is in flight: whenever a step installs a socket that was not
     there, no thread is between its send and the end of its receive -/
@@ -249,7 +262,7 @@ theorem socket_is_newest_connection (scope : LockScope) (hs : scope = .whole) (r
     | inner c' hso hc1 hfr hm st =>
       have : some c' = some c := hso.symm.trans h
       cases this; exact hc1
-    | closedProc hh hr hlo hso => rw [show (runSched .whole (init reqs connected cok) sched).sock = none from hso] at h; cases h
+    | closedProc hh hr hbc hlo hso => rw [show (runSched .whole (init reqs connected cok) sched).sock = none from hso] at h; cases h
     | closedRel hh hso => rw [show (runSched .whole (init reqs connected cok) sched).sock = none from hso] at h; cases h
     | crel hh q hm => exact (q.2.2.2 c h).1
 
@@ -355,7 +368,7 @@ def allOk : Nat → Bool := fun _ => true
 
 /-- two threads, different units, different quantities -/
 def cexReqs : Nat → List Req := fun i =>
-  if i = 0 then [⟨1, 100, 2, 0, false⟩] else if i = 1 then [⟨2, 200, 3, 0, false⟩] else []
+  if i = 0 then [⟨1, 100, 2, 0, false, false⟩] else if i = 1 then [⟨2, 200, 3, 0, false, false⟩] else []
 
 /-- `leakOnFail`: the client lock is taken with an explicit acquire and the connect sits between the acquire and the
     `try … finally: release`.  The first connection attempt is refused: thread 0 correctly gets the connection
@@ -364,7 +377,7 @@ def cexLeak : List Nat := [0, 0, 0, 0, 1, 1]
 
 theorem lock_leak_counterexample :
     let s := runSched .leakOnFail (init cexReqs false (fun k => k != 0)) cexLeak
-    (s.threads 0).results = [(⟨1, 100, 2, 0, false⟩, 0, .raised .modbusExc)] ∧
+    (s.threads 0).results = [(⟨1, 100, 2, 0, false, false⟩, 0, .raised .modbusExc)] ∧
     (s.threads 0).done = true ∧ (s.threads 1).done = false ∧
     s.locks clientKey = some (0, 1) ∧
     runnable .leakOnFail s 0 = false ∧ runnable .leakOnFail s 1 = false := by decide +kernel
@@ -395,11 +408,46 @@ theorem lock_leak_repaired :
     runnable .whole (runSched .whole (init cexReqs false (fun k => k != 0)) (cexLeak ++ [0])) 1 = true ∧
     ((runSched .whole (init cexReqs false (fun k => k != 0))
         (cexLeak ++ [0] ++ List.replicate 14 1)).threads 1).results =
-      [(⟨2, 200, 3, 0, false⟩, 1, .ok 1 2 (.regs [200, 201, 202]))] := by decide +kernel
+      [(⟨2, 200, 3, 0, false, false⟩, 1, .ok 1 2 (.regs [200, 201, 202]))] := by decide +kernel
+
+theorem not_exclusive_of (s : State) (h0 : (s.threads 0).inFlight = true) (h1 : (s.threads 1).inFlight = true) :
+    ¬ Spec.Exclusive s := fun h => absurd (h 0 1 h0 h1) (by decide)
+
+/-- thread 0 broadcasts (unit 0 on a broadcast-enabled client), thread 1 reads registers of unit 2 -/
+def cexReqsBcast : Nat → List Req := fun i =>
+  if i = 0 then [⟨0, 100, 2, 0, false, true⟩] else if i = 1 then [⟨2, 200, 3, 0, false, false⟩] else []
+
+/-- `broadcastOutside` (seeded C15-04), connected client.  Thread 0 connects under the client lock, gives it back and
+    is pre-empted before its first transport operation; thread 1 runs its transaction up to the end of its send (its
+    reply is waiting); thread 0's `_flush_input` throws that reply away and its frame is written while thread 1 is
+    between its send and its receive; thread 1 then reads nothing. -/
+def cexBcast : List Nat := [0, 0, 0, 0, 0, 0, 1, 1, 1, 1, 1, 1, 1, 1, 1, 0, 0, 0, 0, 1, 1]
+
+theorem broadcastOutside_counterexample :
+    -- after thread 0's first write both calls are in flight
+    ((runSched .broadcastOutside (init cexReqsBcast true allOk) (cexBcast.take 17)).threads 0).inFlight = true ∧
+    ((runSched .broadcastOutside (init cexReqsBcast true allOk) (cexBcast.take 17)).threads 1).inFlight = true ∧
+    -- the broadcaster gets its marker, the other caller an error object although the peer answered it
+    ((runSched .broadcastOutside (init cexReqsBcast true allOk) cexBcast).threads 0).results =
+      [(⟨0, 100, 2, 0, false, true⟩, 1, .bcastSent)] ∧
+    ((runSched .broadcastOutside (init cexReqsBcast true allOk) cexBcast).threads 1).results =
+      [(⟨2, 200, 3, 0, false, false⟩, 2, .err .modbusIO)] := by decide +kernel
+
+theorem broadcastOutside_not_serialised : ¬ Serialised .broadcastOutside true allOk := fun h =>
+  not_exclusive_of _ broadcastOutside_counterexample.1 broadcastOutside_counterexample.2.1
+    (h cexReqsBcast (cexBcast.take 17)).1
+
+/-- the same requests and schedule under the shipped discipline: the broadcast is written under both locks, thread 1
+    is parked on the client lock meanwhile and then gets its own reply -/
+theorem broadcastOutside_repaired :
+    let s := runSched .whole (init cexReqsBcast true allOk) (cexBcast ++ List.replicate 12 0 ++ List.replicate 16 1)
+    (s.threads 0).results = [(⟨0, 100, 2, 0, false, true⟩, 1, .bcastSent)] ∧
+    (s.threads 1).results = [(⟨2, 200, 3, 0, false, false⟩, 2, .ok 2 2 (.regs [200, 201, 202]))] := by
+  decide +kernel
 
 /-- thread 0: a request the peer does not answer, then another one; thread 1: one request -/
 def cexReqsLost : Nat → List Req := fun i =>
-  if i = 0 then [⟨1, 100, 2, 0, true⟩, ⟨3, 300, 1, 0, false⟩] else if i = 1 then [⟨2, 200, 3, 0, false⟩] else []
+  if i = 0 then [⟨1, 100, 2, 0, true, false⟩, ⟨3, 300, 1, 0, false, false⟩] else if i = 1 then [⟨2, 200, 3, 0, false, false⟩] else []
 
 /-- `lockOnlyWhenCold` (seeded C15-03), connected client.  Thread 0 sends its first request; thread 1 looks, sees a
     socket and goes straight to the manager lock, where it parks; thread 0's reply is lost: short read, the connection
@@ -413,29 +461,28 @@ def cexColdLock : List Nat :=
 theorem lockOnlyWhenCold_counterexample :
     let s := runSched .lockOnlyWhenCold (init cexReqsLost true allOk) cexColdLock
     -- thread 0's own reply was lost: it rightly gets its error object
-    (s.threads 0).results = [(⟨1, 100, 2, 0, true⟩, 1, .err .modbusIO)] ∧
+    (s.threads 0).results = [(⟨1, 100, 2, 0, true, false⟩, 1, .err .modbusIO)] ∧
     -- thread 1's request was answered (the reply sits unread on connection 1), yet it gets an error object
-    (s.threads 1).results = [(⟨2, 200, 3, 0, false⟩, 2, .err .modbusIO)] ∧
-    s.stream 1 = replyOf 2 ⟨2, 200, 3, 0, false⟩ := by decide +kernel
+    (s.threads 1).results = [(⟨2, 200, 3, 0, false, false⟩, 2, .err .modbusIO)] ∧
+    s.stream 1 = replyOf 2 ⟨2, 200, 3, 0, false, false⟩ := by decide +kernel
 
 theorem lockOnlyWhenCold_not_serialised : ¬ Serialised .lockOnlyWhenCold true allOk := by
   intro h
-  have h1 := (h cexReqsLost cexColdLock).2.2 1 (⟨2, 200, 3, 0, false⟩, 2, .err .modbusIO)
+  have h1 := (h cexReqsLost cexColdLock).2.2 1 (⟨2, 200, 3, 0, false, false⟩, 2, .err .modbusIO)
     (by rw [lockOnlyWhenCold_counterexample.2.1]; exact List.mem_singleton.2 rfl)
-  cases h1 with
-  | inl h1 => exact absurd h1.1 (by decide)
-  | inr h1 =>
-    cases h1 with
-    | inl h1 => exact absurd h1.1 (by decide)
-    | inr h1 => exact absurd h1.2 (by decide)
+  rcases h1 with h1 | h1 | h1 | h1
+  · exact absurd h1.1 (by decide)
+  · exact absurd h1.1 (by decide)
+  · exact absurd h1.2.1 (by decide)
+  · exact absurd h1.2.2 (by decide)
 
 /-- the same world and schedule under the shipped discipline: thread 1 is parked on the CLIENT lock while thread 0
     loses its reply, the next call reconnects under that lock, and thread 1 gets its own reply -/
 theorem lockOnlyWhenCold_repaired :
     let s := runSched .whole (init cexReqsLost true allOk) (cexColdLock ++ List.replicate 16 0 ++ List.replicate 16 1)
-    (s.threads 0).results = [(⟨1, 100, 2, 0, true⟩, 1, .err .modbusIO),
-                             (⟨3, 300, 1, 0, false⟩, 2, .ok 2 3 (.regs [300]))] ∧
-    (s.threads 1).results = [(⟨2, 200, 3, 0, false⟩, 3, .ok 3 2 (.regs [200, 201, 202]))] ∧
+    (s.threads 0).results = [(⟨1, 100, 2, 0, true, false⟩, 1, .err .modbusIO),
+                             (⟨3, 300, 1, 0, false, false⟩, 2, .ok 2 3 (.regs [300]))] ∧
+    (s.threads 1).results = [(⟨2, 200, 3, 0, false, false⟩, 3, .ok 3 2 (.regs [200, 201, 202]))] ∧
     s.sock = some 1 := by decide +kernel
 
 /-- the code before the repair of connect-outside-lock (`connectOutside`: `connect()` before any lock is taken), cold
@@ -449,32 +496,28 @@ def cexRace : List Nat := [0, 1, 0, 1, 0, 0, 0, 0, 0, 0, 0, 1, 0, 0, 0]
     frame is whole. -/
 theorem connect_race_counterexample :
     ((runSched .connectOutside (init cexReqs false allOk) cexRace).threads 0).results =
-      [(⟨1, 100, 2, 0, false⟩, 1, .err .modbusIO)] ∧
-    (runSched .connectOutside (init cexReqs false allOk) cexRace).stream 0 = replyOf 1 ⟨1, 100, 2, 0, false⟩ ∧
+      [(⟨1, 100, 2, 0, false, false⟩, 1, .err .modbusIO)] ∧
+    (runSched .connectOutside (init cexReqs false allOk) cexRace).stream 0 = replyOf 1 ⟨1, 100, 2, 0, false, false⟩ ∧
     (runSched .connectOutside (init cexReqs false allOk) cexRace).sock = none ∧
-    ¬ Spec.Answered allOk (⟨1, 100, 2, 0, false⟩, 1, .err .modbusIO) := by
+    ¬ Spec.Answered allOk (⟨1, 100, 2, 0, false, false⟩, 1, .err .modbusIO) := by
   refine ⟨by decide +kernel, by decide +kernel, by decide +kernel, ?_⟩
   intro h
-  cases h with
-  | inl h => exact absurd h.1 (by decide)
-  | inr h =>
-    cases h with
-    | inl h => exact absurd h.1 (by decide)
-    | inr h => exact absurd h.2 (by decide)
+  rcases h with h | h | h | h
+  · exact absurd h.1 (by decide)
+  · exact absurd h.1 (by decide)
+  · exact absurd h.2.1 (by decide)
+  · exact absurd h.2.2 (by decide)
 
 theorem connectOutside_not_serialised : ¬ Serialised .connectOutside false allOk := by
   intro h
-  have h1 := (h cexReqs cexRace).2.2 0 (⟨1, 100, 2, 0, false⟩, 1, .err .modbusIO)
+  have h1 := (h cexReqs cexRace).2.2 0 (⟨1, 100, 2, 0, false, false⟩, 1, .err .modbusIO)
     (by rw [connect_race_counterexample.1]; exact List.mem_singleton.2 rfl)
   exact connect_race_counterexample.2.2.2 h1
 
 /-- the very same schedule under the shipped discipline: thread 1 is parked on the client lock, nothing is lost -/
 theorem connect_race_repaired :
     ((runSched .whole (init cexReqs false allOk) (cexRace ++ [0, 0, 0, 0])).threads 0).results =
-      [(⟨1, 100, 2, 0, false⟩, 1, .ok 1 1 (.regs [100, 101]))] := by decide +kernel
-
-theorem not_exclusive_of (s : State) (h0 : (s.threads 0).inFlight = true) (h1 : (s.threads 1).inFlight = true) :
-    ¬ Spec.Exclusive s := fun h => absurd (h 0 1 h0 h1) (by decide)
+      [(⟨1, 100, 2, 0, false, false⟩, 1, .ok 1 1 (.regs [100, 101]))] := by decide +kernel
 
 /-- (client connected) both threads up to and including their first write: next request, connect check, acquire,
     tid, connect, flush, send₁ -/
@@ -495,7 +538,7 @@ theorem none_counterexample :
     ((runSched .none (init cexReqs true allOk) cexInterleavedNone).threads 1).inFlight = true ∧
     Spec.contiguous (runSched .none (init cexReqs true allOk) cexInterleavedNone).wire = false ∧
     ((runSched .none (init cexReqs true allOk) cexSwappedNone).threads 0).results =
-      [(⟨1, 100, 2, 0, false⟩, 1, .err .modbusIO)] := by decide +kernel
+      [(⟨1, 100, 2, 0, false, false⟩, 1, .err .modbusIO)] := by decide +kernel
 
 theorem none_not_serialised : ¬ Serialised .none true allOk := fun h =>
   not_exclusive_of _ none_counterexample.1 none_counterexample.2.1 (h cexReqs cexInterleavedNone).1
@@ -508,7 +551,7 @@ theorem perKey_counterexample :
     Spec.contiguous (runSched (.perKey (·.unit)) (init cexReqs true allOk) cexInterleaved).wire = false ∧
     -- thread 1 transacts while thread 0 waits: its flush discards thread 0's reply, thread 0 gets an error object
     ((runSched (.perKey (·.unit)) (init cexReqs true allOk) cexSwapped).threads 0).results =
-      [(⟨1, 100, 2, 0, false⟩, 1, .err .modbusIO)] := by decide +kernel
+      [(⟨1, 100, 2, 0, false, false⟩, 1, .err .modbusIO)] := by decide +kernel
 
 theorem perKey_not_serialised : ¬ Serialised (.perKey (·.unit)) true allOk := fun h =>
   not_exclusive_of _ perKey_counterexample.1 perKey_counterexample.2.1 (h cexReqs cexInterleaved).1
@@ -519,14 +562,14 @@ theorem perKey_not_serialised : ¬ Serialised (.perKey (·.unit)) true allOk := 
     reply (other transaction id) is dropped instead of being handed over: thread 1 gets an error object although the
     peer answered its request (before that repair it was handed thread 0's registers) -/
 def cexReqsAny : Nat → List Req := fun i =>
-  if i = 0 then [⟨0, 100, 2, 0, false⟩] else if i = 1 then [⟨255, 200, 3, 0, false⟩] else []
+  if i = 0 then [⟨0, 100, 2, 0, false, false⟩] else if i = 1 then [⟨255, 200, 3, 0, false, false⟩] else []
 
 def cexForeign : List Nat := [0, 0, 0, 0, 0, 0, 0, 1, 1, 1, 1, 1, 1, 0, 1, 1, 1, 1, 1]
 
 theorem perKey_foreign_reply_counterexample :
     ((runSched (.perKey (·.unit)) (init cexReqsAny true allOk) cexForeign).threads 1).results =
-      [(⟨255, 200, 3, 0, false⟩, 2, .err .modbusIO)] ∧
-    ¬ Spec.OwnReply (⟨255, 200, 3, 0, false⟩, 2, .err .modbusIO) := by decide +kernel
+      [(⟨255, 200, 3, 0, false, false⟩, 2, .err .modbusIO)] ∧
+    ¬ Spec.OwnReply (⟨255, 200, 3, 0, false, false⟩, 2, .err .modbusIO) := by decide +kernel
 
 /-- a manager lock around the send only keeps the frames whole but not the transactions apart -/
 def cexSendOnly : List Nat := [0, 0, 0, 0, 0, 0, 0, 0, 0, 1, 1, 1, 1, 1, 1, 1]
@@ -547,8 +590,8 @@ example :
     let s := runSched .whole (init cexReqs false (fun k => k != 0)) (List.replicate 5 0 ++ List.replicate 15 1)
     runnable .whole (runSched .whole (init cexReqs false (fun k => k != 0)) [0, 0, 1]) 1 = false ∧
     (s.threads 0).done = true ∧ (s.threads 1).done = true ∧ s.sock = some 0 ∧ s.nextConn = 1 ∧
-    (s.threads 0).results = [(⟨1, 100, 2, 0, false⟩, 0, .raised .modbusExc)] ∧
-    (s.threads 1).results = [(⟨2, 200, 3, 0, false⟩, 1, .ok 1 2 (.regs [200, 201, 202]))] := by decide +kernel
+    (s.threads 0).results = [(⟨1, 100, 2, 0, false, false⟩, 0, .raised .modbusExc)] ∧
+    (s.threads 1).results = [(⟨2, 200, 3, 0, false, false⟩, 1, .ok 1 2 (.regs [200, 201, 202]))] := by decide +kernel
 
 /-- the hypotheses of `fair_schedule_finishes` are satisfiable: round robin, as many rounds as operations -/
 example : (∀ t, 2 ≤ t → cexReqs t = []) ∧ totalWork .whole (init cexReqs false allOk) 2 ≤ 50 ∧
